@@ -21,7 +21,7 @@ lock = threading.Lock()
 
 
 def worker(k):
-    slot = "/var/tmp/mutslot-%s-%d" % (check, k)
+    slot = "/var/tmp/mutslot-%d" % k      # shared by consecutive campaigns (warm incremental builds)
     if not os.path.isdir(slot):
         subprocess.run(["rsync", "-a", "--exclude", "target", "--exclude", ".git", "/repo/", slot + "/"], check=True)
     while True:
